@@ -29,13 +29,15 @@ vars == <<buf, vtype, callerTouched, objectTouched>>
 
 InPlaceSig == {"running_average"}
 InPlaceAccOnly == {"remove_rolling_average_acc", "rebase_displacement", "set_zero_residual_velocity",
-                   "set_zero_residual_displacement", "set_zero_residual_displacement_and_velocity"}
+                   "set_zero_residual_displacement", "set_zero_residual_displacement_and_velocity",
+                   "set_zero_residual_dv_timezone"}       \* (the same correction confined to a time window)
 InPlaceOps == IF Kind = "AccSignal" THEN InPlaceSig \cup InPlaceAccOnly ELSE InPlaceSig
 FuncSig == {"add_constant", "add_series", "add_signal", "butter_pass", "remove_average", "remove_poly", "reset_temp"}
 FuncAccOnly == {"correct_me", "remove_rolling_average_velocity"}
 FuncOps == IF Kind = "AccSignal" THEN FuncSig \cup FuncAccOnly ELSE FuncSig
 \* (reset_rejected: reset_values with something that cannot become a record -- the call raises and must leave the object as it was)
-ReadOps == {"read_values", "read_derived", "reset_rejected"}
+\* (write_into_time: the caller edits, in place, the array that reading `time` returned -- a returned array is the caller's)
+ReadOps == {"read_values", "read_derived", "reset_rejected", "write_into_time"}
 
 OpName(o, k) == IF k = 0 THEN o ELSE o \o (IF k = 1 THEN "_1" ELSE "_2")
 
